@@ -38,9 +38,12 @@ package utils
 //@   ensures[empty-buffer] len(result.B) == 0
 //@   ensures[non-nil] result != nil
 
+// monitor: how many byte buffers were handed back (whether or not the pool keeps them)
+//@ ghost global bufferReleases int
 //@ func (*BufferPool).Put
 //@   property C20
-//@   modifies b.B, allof(type(BufferPool)), allelems(type(uint64)), allelems(type(callSize)), allelems(type(byte))
+//@   modifies b.B, allof(type(BufferPool)), allelems(type(uint64)), allelems(type(callSize)), allelems(type(byte)), ghost.bufferReleases
+//@   ghostset ghost.bufferReleases = old(ghost.bufferReleases) + 1
 
 // ---- C20: a recycled Args never exposes a stale slot ------------------------
 // Reset only truncates a.args; the argsKV slots beyond len keep the previous
